@@ -230,6 +230,15 @@ def model_pieces(model, consts):
         s = p.parse_stmt()
         if s is not None:
             tail.append(s)
+    head = []
+    p = Parser(t, consts)
+    p.p = lo + 1
+    while p.p < kw:
+        s0 = p.parse_stmt()
+        if s0 is not None:
+            head.append(s0)
+    if p.p != kw:
+        raise Refuse("model(): statements before for(;;) not fully parsed")
     ret = []
     p = Parser(t, consts)
     p.p = e + 1
@@ -237,7 +246,7 @@ def model_pieces(model, consts):
         s = p.parse_stmt()
         if s is not None:
             ret.append(s)
-    return wcond, cp.seq(pre), wbody, cp.seq(tail), cp.seq(ret)
+    return wcond, cp.seq(pre), wbody, cp.seq(tail), cp.seq(ret), cp.seq(head)
 
 
 def f_terms(prep, consts, fn):
@@ -431,7 +440,8 @@ def generate(repo):
         defstmt("res_%s" % tag, res_s, "residuals(): %s row, statements after the assignment of residual[i]" % typ)
         defstmt("chk_%s" % tag, pr["check_residuals"], "check_residuals(): %s row" % typ)
 
-    wcond, pre, wbody, tail, ret = model_pieces(model, consts)
+    wcond, pre, wbody, tail, ret, head = model_pieces(model, consts)
+    defstmt("model_head", head, "model(): statements before the for(;;) (input checks, Pitzer / SIT dispatch, set-up)")
     w("(* model(): condition of the inner while loop *)")
     w("Definition model_while : cond := %s.\n" % cp.coq_cond(wcond))
     defstmt("model_pre", pre, "model(): statements of the for(;;) body before the while")
